@@ -146,13 +146,14 @@ From DV Require Import C19.Canvas C19.CanvasDraw C19.CanvasProofs C19.CanvasSwee
    drawn, no vertical crossing, the body rectangle = the whole drawing, and the THIN, BODY and GRID layers all equal to the drawing
    with its double lines made single and its texts blanked (nothing to add to the grid of a regular drawing) *)
 Theorem C19_canvas_scan_regular : forall d, wf_rdraw d = true ->
+  CanvasProofs.T d = draw_grid d ++ [repeat cOuter (Wd d)] /\
   scan_from (CanvasProofs.T d) (CanvasProofs.B d) = Ok (regular_canvas d) /\
   cv_cross (regular_canvas d) = (X (rd_ws d) (rd_v1 d), 2) /\
   cv_horz (regular_canvas d) = option_map (fun k => (X (rd_ws d) k, 2)) (rd_v2 d) /\
   cv_vert (regular_canvas d) = None /\ cv_name (regular_canvas d) = None /\
   cv_rect (regular_canvas d) = (0, 0, Wd d, Hd d) /\
   cv_body (regular_canvas d) = cv_thin (regular_canvas d) /\ cv_grid (regular_canvas d) = cv_thin (regular_canvas d).
-Proof. intros d Hwf. split; [now apply scan_regular_drawing|]. repeat split. Qed.
+Proof. intros d Hwf. split; [apply T_is_grid|]. split; [now apply scan_regular_drawing|]. repeat split. Qed.
 
 (* for EVERY cell of EVERY well-formed regular drawing: the region walk on THIN and the rectangle walk on GRID started at the cell's
    top-left corner both close on the frame of the cell as drawn, and the text read from that frame is the cell text as drawn *)
